@@ -240,7 +240,7 @@ def pch_configure(p: Project) -> None:
     _pch(p, 'configure')
 
 
-@entry('pch-dep', ['gcc', 'g++'], PCH_FIXED, PCH_MATRIX, PCH_REACH,
+@entry('pch-dep', ['gcc', 'g++'], PCH_FIXED + [{'lang': 'cpp', 'b_pch': False, 'layout': 'mirror', 'unity': 'off'}], PCH_MATRIX, PCH_REACH,
        'pch header #includes a custom_target header that arrives through declare_dependency(sources:)')
 def pch_dep(p: Project) -> None:
     _pch(p, 'dep')
@@ -428,16 +428,18 @@ def java_gen(p: Project) -> None:
 
 
 @entry('java-subdir-gen', ['javac', 'jar'], [{'buildtype': 'debug'}], {'buildtype': ['debug', 'release']},
-       'generate_java_compile (-sourcepath of a sub directory, class path of generated sources), generate_jar_target',
-       'jar() in a sub directory, package directory layout, generated .java source in that sub directory used by a hand-written class')
+       'generate_java_compile (-sourcepath of a sub directory, class file paths of sources in package directories and of generated sources), generate_jar_target',
+       'jar() in a sub directory: a class in a package directory, a custom_target .java source of that sub directory, both used by the main class')
 def java_subdir_gen(p: Project) -> None:
     L = head(p, ['java'])
     L.append("subdir('j')")
     S = [f"gsrc = custom_target('cfgsrc', input: 'Config.java.in', output: 'Config.java', {COPY})",
-         "jj = jar('jj', 'com/ex/Main.java', gsrc, main_class: 'com.ex.Main')",
+         "jj = jar('jj', 'Main.java', 'com/ex/Util.java', gsrc, main_class: 'Main')",
          "test('jj', jj)"]
-    p.files['j/Config.java.in'] = 'public class Config { public static final int VALUE = 42; }\n'
-    p.files['j/com/ex/Main.java'] = 'package com.ex;\npublic class Main { public static void main(String[] a) { System.exit(new Object() == null ? 1 : 0); } }\n'
+    p.files['j/Config.java.in'] = 'public class Config { public static final int VALUE = 40; }\n'
+    p.files['j/com/ex/Util.java'] = 'package com.ex;\npublic class Util { public static int two() { return 2; } }\n'
+    p.files['j/Main.java'] = ('import com.ex.Util;\npublic class Main { public static void main(String[] a) '
+                              '{ System.exit(Config.VALUE + Util.two() - 42); } }\n')
     p.files['j/meson.build'] = '\n'.join(S) + '\n'
     p.files['meson.build'] = '\n'.join(L) + '\n'
     p.expect = [('jj.jar', 'all'), ('jj.jar', 'meson-test-prereq')]
@@ -551,7 +553,7 @@ def link_depends(p: Project) -> None:
 
 
 @entry('link-depends-file-and-exe', ['gcc'], [{'layout': 'mirror'}], {'layout': LAYOUT},
-       'generate_link: link_depends on an executable target (linker script passed to a second executable)',
+       'generate_link: link_depends with a CustomTargetIndex of a two-output custom target that is run by a built tool (get_dependency_filename)',
        'executable(link_depends: ct[0] of a two-output custom_target) with the script passed by -Wl,--version-script; the custom target is run by a built tool')
 def link_depends_exe(p: Project) -> None:
     L = head(p, ['c'])
